@@ -905,22 +905,41 @@ def m_vec_clone(I, st, inst, args):
     return Forks([(s, VecVal(acc)) for s, acc in states])
 
 
-@model("alloc::boxed::box_assume_init_into_vec_unsafe::<*>", "std::boxed::box_assume_init_into_vec_unsafe::<*>",
-       "std::slice::<impl [*]>::into_vec::<*>", "alloc::slice::<impl [*]>::into_vec::<*>")
+@model("alloc::boxed::box_assume_init_into_vec_unsafe::<*>", "std::boxed::box_assume_init_into_vec_unsafe::<*>")
 def m_box_into_vec(I, st, inst, args):
+    """Box<MaybeUninit<[T; N]>> -> Vec<T> (the lowering of vec![a, b, c])"""
+    p = I.unwrap_ptr(args[0])
+    v = I.read(st, p, expand_scalar=False)
+    t = I.types[I.pointee(inst.sig[0])] if inst.sig else None
+    while t is not None and t.kind != "array":
+        if t.kind != "adt":
+            raise Unsupported("box_into_vec through %s" % t)
+        fs = t.variant_fields(0)
+        idx = 0
+        if t.is_union:
+            idx = [i for i, f in enumerate(fs) if f["name"] == "value"][0]
+        else:
+            # the single non-zero-sized field
+            cand = [i for i, f in enumerate(fs) if I.types[f["ty"]].kind in ("adt", "array") and I.size_of(I.types[f["ty"]]) > 0]
+            idx = cand[0] if cand else 0
+        if not isinstance(v, Agg) or idx >= len(v.f):
+            raise Unsupported("box_into_vec value %r" % (v,))
+        v = v.f[idx]
+        t = I.types[fs[idx]["ty"]]
+    if not isinstance(v, Agg):
+        raise Unsupported("box_into_vec array %r" % (v,))
+    return VecVal(v.f)
+
+
+@model("std::slice::<impl [*]>::into_vec::<*>", "alloc::slice::<impl [*]>::into_vec::<*>")
+def m_slice_into_vec(I, st, inst, args):
     p = I.unwrap_ptr(args[0])
     v = I.read(st, p, expand_scalar=False)
     if isinstance(v, Agg):
-        # Box<MaybeUninit<[T; N]>> : peel MaybeUninit / ManuallyDrop wrappers down to the array
-        t = I.types[inst.targ(0)] if inst.args else None
-        while isinstance(v, Agg) and len(v.f) >= 1 and not _looks_like_array(I, v, p):
-            v = v.f[-1] if len(v.f) == 2 and v.f[0] is UNINIT else v.f[0]
         return VecVal(v.f)
-    raise Unsupported("box into vec of %r" % (v,))
-
-
-def _looks_like_array(I, v, p):
-    return True
+    if isinstance(v, VecVal):
+        return v
+    raise Unsupported("into_vec of %r" % (v,))
 
 
 @model("std::boxed::Box::<*>::new_uninit", "std::boxed::Box::<*>::new_uninit_in", "alloc::boxed::Box::<*>::new_uninit")
@@ -944,61 +963,6 @@ def m_box_new(I, st, inst, args):
         return Ptr(st.alloc(UNINIT))
     c = st.alloc(args[0])
     return make_box(I, inst, Ptr(c))
-
-
-@model("std::slice::<impl [*]>::iter", "core::slice::<impl [*]>::iter", "core::slice::<impl [*]>::iter_mut", "std::slice::<impl [*]>::iter_mut",
-       "<&[*] as std::iter::IntoIterator>::into_iter", "<&mut [*] as std::iter::IntoIterator>::into_iter",
-       "<&std::vec::Vec<*> as std::iter::IntoIterator>::into_iter", "<&mut std::vec::Vec<*> as std::iter::IntoIterator>::into_iter",
-       "core::slice::iter::<impl std::iter::IntoIterator for &[*]>::into_iter", "core::slice::iter::<impl std::iter::IntoIterator for &mut [*]>::into_iter")
-def m_slice_iter(I, st, inst, args):
-    p = args[0]
-    t = I.read(st, p, expand_scalar=False)
-    if isinstance(t, Lazy):
-        t = I.lazy.expand(I, st, t, p)
-    if isinstance(t, VecVal):
-        return Opaque("SliceIter", (Ptr(p.cell, p.path + ("e",)), 0, len(t.elems)))
-    if isinstance(t, Agg):
-        n = p.meta if isinstance(p.meta, int) else len(t.f)
-        return Opaque("SliceIter", (Ptr(p.cell, p.path), 0, n))
-    raise Unsupported("iter over %r" % (t,))
-
-
-@model("<std::slice::Iter<'_, *> as std::iter::Iterator>::next", "<std::slice::IterMut<'_, *> as std::iter::Iterator>::next")
-def m_slice_iter_next(I, st, inst, args):
-    it = I.read(st, args[0])
-    base, i, n = it.data
-    if i >= n:
-        return NONE
-    I.write(st, args[0], Opaque("SliceIter", (base, i + 1, n)))
-    return mk_option(Ptr(base.cell, base.path + (i,)))
-
-
-@model("<std::slice::Iter<'_, *> as std::iter::DoubleEndedIterator>::next_back")
-def m_slice_iter_next_back(I, st, inst, args):
-    it = I.read(st, args[0])
-    base, i, n = it.data
-    if i >= n:
-        return NONE
-    I.write(st, args[0], Opaque("SliceIter", (base, i, n - 1)))
-    return mk_option(Ptr(base.cell, base.path + (n - 1,)))
-
-
-@model("<std::slice::Iter<'_, *> as std::iter::Iterator>::size_hint", "<std::slice::IterMut<'_, *> as std::iter::Iterator>::size_hint")
-def m_slice_iter_size_hint(I, st, inst, args):
-    it = I.read(st, args[0])
-    n = it.data[2] - it.data[1]
-    return Agg(None, (n, mk_option(n)))
-
-
-@model("<std::slice::Iter<'_, *> as std::iter::ExactSizeIterator>::len", "<std::slice::Iter<'_, *> as std::iter::Iterator>::count")
-def m_slice_iter_len(I, st, inst, args):
-    it = I.read(st, args[0]) if isinstance(args[0], Ptr) else args[0]
-    return it.data[2] - it.data[1]
-
-
-@model("<std::slice::Iter<'_, *> as std::clone::Clone>::clone")
-def m_slice_iter_clone(I, st, inst, args):
-    return I.read(st, args[0])
 
 
 @model("std::slice::<impl [*]>::len", "core::slice::<impl [*]>::len")
@@ -1100,3 +1064,39 @@ def m_unreachable_unchecked(I, st, inst, args):
 @model("std::hint::assert_unchecked", "core::hint::assert_unchecked")
 def m_assert_unchecked(I, st, inst, args):
     return UNIT
+
+
+# ---------------------------------------------------------------------------- slice iterators over modelled vectors
+def make_slice_iter(I, ret_tid, base, n):
+    """build a real core::slice::Iter / IterMut struct value over the n elements located at `base` (sequence ptr)"""
+    t = I.types[ret_tid]
+    fs = t.variant_fields(0)
+    out = []
+    first = Ptr(base.cell, base.path + (0,))
+    end = Ptr(base.cell, base.path + (n,))
+    for f in fs:
+        ft = I.types[f["ty"]]
+        if f["name"] == "ptr":
+            out.append(I.wrap_like(ft, first))
+        elif f["name"] == "end_or_len":
+            out.append(end)
+        else:
+            out.append(UNIT)
+    return Agg(None, out)
+
+
+@model("<&std::vec::Vec<*> as std::iter::IntoIterator>::into_iter", "<&mut std::vec::Vec<*> as std::iter::IntoIterator>::into_iter",
+       "std::slice::<impl [*]>::iter", "core::slice::<impl [*]>::iter", "core::slice::<impl [*]>::iter_mut", "std::slice::<impl [*]>::iter_mut",
+       "<&[*] as std::iter::IntoIterator>::into_iter", "<&mut [*] as std::iter::IntoIterator>::into_iter",
+       "core::slice::iter::<impl std::iter::IntoIterator for &[*]>::into_iter", "core::slice::iter::<impl std::iter::IntoIterator for &mut [*]>::into_iter")
+def m_ref_vec_into_iter(I, st, inst, args):
+    p = args[0]
+    t = I.read(st, p, expand_scalar=False)
+    if isinstance(t, Lazy):
+        t = I.lazy.expand(I, st, t, p)
+    if isinstance(t, VecVal):
+        return make_slice_iter(I, inst.sig[-1], Ptr(p.cell, p.path + ("e",)), len(t.elems))
+    if isinstance(t, Agg):
+        n = p.meta if isinstance(p.meta, int) else len(t.f)
+        return make_slice_iter(I, inst.sig[-1], Ptr(p.cell, p.path), n)
+    raise Unsupported("iter over %r" % (t,))
